@@ -116,6 +116,11 @@ def basis_part(rep, rng, runq, todo, quick):
 
 def spline_part(rep, rng, quick):
     from FDApy.misc.basis import _basis_bsplines
+    fd.dtype_monitor(rep, rng, {
+        "to_long()": lambda d: d.to_long().values.astype(float),
+        "to_basis(PS).to_grid()": lambda d: d.to_basis(n_segments=3, degree=2, penalty=1.0).to_grid().values,
+        "smooth(PS)": lambda d: d.smooth(method="PS", n_segments=3, degree=2, penalty=1.0).values,
+        "smooth(LP)": lambda d: d.smooth(method="LP", bandwidth=6.0).values}, "representation changes / smoothing")
     for i in range(3 if quick else 20):
         m = int(rng.integers(12, 25))
         t = np.linspace(0, 1, m) if i % 2 == 0 else np.unique(np.concatenate([[0, 1], np.round(rng.uniform(0, 1, m) * 128) / 128]))
